@@ -29,6 +29,10 @@ harness.  Vectors are `DVec α = List α`, matrices `DMat α = List (List α)` (
   time followed every later `forward`/`reset`/assignment while `_ref_f/_ref_g` stayed frozen;
   `aliasX = true` — before fix D38 `_ref_state`, `_ref_input` were the *caller's tensors* (no copy), so an in-place
   update of those tensors by the caller (`poke`) moved the reference point while `_ref_f/_ref_g` stayed frozen.
+  `partialF = false` (default) is the documented behaviour of error paths: a `forward` or `set_refpoint` that raises leaves
+  the object as it was. `partialF = true` is the code as it stands: `self.state/self.input` are assigned before the user
+  function runs, and `set_refpoint` assigns `_ref_state`, `_ref_input`, `_ref_t` one by one before `_ref_f`, so a call that
+  raises leaves a partial update behind.
 -/
 namespace PP.Dyn
 variable {α : Type} [Scalar α]
@@ -113,6 +117,7 @@ inductive MEv
   | assignFrom (j : Nat)        -- `sys_i.systime = sys_j.systime`
   | resetFrom (j : Nat)         -- `sys_i.reset(sys_j.systime)`
   | refFrom (j : Nat)           -- `sys_i.set_refpoint(t=sys_j.systime)`
+  | copyOf (j : Nat)            -- `sys_i = copy.deepcopy(sys_j)` / pickle round trip / `load_state_dict(sys_j.state_dict())`
 deriving Repr, Inhabited
 
 /-- the plain clock event a tagged event amounts to, given all clocks now -/
@@ -121,6 +126,7 @@ def MEv.toEv (cs : List Int) : MEv → Ev
   | .assignFrom j => .assign ⟨cs.getD j 0, 1⟩
   | .resetFrom j => .reset ⟨cs.getD j 0, 1⟩
   | .refFrom j => .refpoint (some ⟨cs.getD j 0, 1⟩)
+  | .copyOf j => .assign ⟨cs.getD j 0, 1⟩     -- a copy is a new, independent system that starts with the same time
 
 /-- event `te.2` happens on system `te.1` -/
 def stepMulti (ks : List Kind) (cs : List Int) (te : Nat × MEv) : List Int :=
@@ -368,6 +374,8 @@ inductive NEv (α : Type)
   | reset (t : TArg)
   | assign (t : TArg)
   | poke (tgt : PokeTgt) (v : DVec α)   -- the caller overwrites that tensor's content with `v`
+  | callRaise (x u : DVec α)            -- `sys(x, u)` whose user function raises
+  | refRaise (x u : Option (DVec α)) (t : TRef α)   -- `set_refpoint(..)` whose user function raises
 
 inductive NOut (α : Type)
   | outputs (f g : DVec α)
@@ -397,7 +405,8 @@ def refTOf (aliasT : Bool) (c : Int) : TRef α → RefT α
 
 /-- `set_refpoint`, statement by statement -/
 def setRefpoint (aliasT : Bool) (fs gs : List Fn) (S : NState α)
-    (x? u? : Option (DVec α)) (t? : TRef α) : NState α × NOut α :=
+    (x? u? : Option (DVec α)) (t? : TRef α) (partialF : Bool := false) (cbRaises : Bool := false) :
+    NState α × NOut α :=
   -- self._ref_state = self.state if state is None else atleast_1d(state)
   match orLast x? (S.last.map Prod.fst) with
   | none => (S, .raised)
@@ -405,8 +414,13 @@ def setRefpoint (aliasT : Bool) (fs gs : List Fn) (S : NState α)
     let S1 := { S with refx := some x, refxLast := x?.isNone }
     -- self._ref_input = self.input if input is None else atleast_1d(input)
     match orLast u? (S.last.map Prod.snd) with
-    | none => (S1, .raised)
+    | none => (if partialF then S1 else S, .raised)
     | some u =>
+      if cbRaises then
+        -- the user function raises while `_ref_f` is computed: three attributes are already assigned (`partialF`)
+        (if partialF then { S1 with refu := some u, refuLast := u?.isNone, reft := some (refTOf aliasT S.clock t?) } else S,
+         .raised)
+      else
       -- self._ref_t = self.systime if t is None else atleast_1d(t)
       let rt : RefT α := refTOf aliasT S.clock t?
       -- self._ref_f = self.state_transition(...); self._ref_g = self.observation(...)
@@ -432,18 +446,22 @@ def pokeN (aliasX : Bool) (S : NState α) (tgt : PokeTgt) (v : DVec α) : NState
   | .refU => { S with refu := if aliasX then setSome S.refu v else S.refu,
                       last := if S.refuLast then S.last.map (fun p => (p.1, v)) else S.last }
 
-def stepN (aliasT aliasX : Bool) (fs gs : List Fn) (S : NState α) : NEv α → NState α × NOut α
+def stepN (aliasT aliasX partialF : Bool) (fs gs : List Fn) (S : NState α) : NEv α → NState α × NOut α
   | .call x u =>
     let env := mkEnv x u (ofInt S.clock)
     ({ S with clock := S.clock + 1, last := some (x, u), refxLast := false, refuLast := false },
      .outputs (evalAll fs env) (evalAll gs env))
-  | .refpoint x? u? t? => setRefpoint aliasT fs gs S x? u? t?
+  | .refpoint x? u? t? => setRefpoint aliasT fs gs S x? u? t? partialF
+  | .refRaise x? u? t? => setRefpoint aliasT fs gs S x? u? t? partialF true
+  | .callRaise x u =>
+    -- `self.state, self.input = …` is assigned before the user function runs; the hook is not reached
+    (if partialF then { S with last := some (x, u), refxLast := false, refuLast := false } else S, .raised)
   | .reset t => ({ S with clock := t.trunc }, .done)
   | .assign t => ({ S with clock := t.trunc }, .done)
   | .poke tgt v => (pokeN aliasX S tgt v, .done)
 
-def runN (aliasT aliasX : Bool) (fs gs : List Fn) (S : NState α) (evs : List (NEv α)) : NState α :=
-  evs.foldl (fun S e => (stepN aliasT aliasX fs gs S e).1) S
+def runN (aliasT aliasX partialF : Bool) (fs gs : List Fn) (S : NState α) (evs : List (NEv α)) : NState α :=
+  evs.foldl (fun S e => (stepN aliasT aliasX partialF fs gs S e).1) S
 
 /-- reading `A, B, C, D, c1, c2` now (`none`: an `AttributeError`, no reference point yet) -/
 def readLin (fs gs : List Fn) (S : NState α) : Option (Lin α) :=
@@ -458,7 +476,10 @@ def NEv.toEv : NEv α → Ev
   | .reset t => .reset t
   | .assign t => .assign t
   | .poke _ _ => .fwdDirect          -- no effect on the clock
+  | .callRaise _ _ => .callRaise
+  | .refRaise _ _ _ => .refpoint none
 
+/-- events that *successfully* set the reference point (a raising `set_refpoint` changes nothing: error paths are atomic) -/
 def NEv.isRef : NEv α → Bool
   | .refpoint _ _ _ => true
   | _ => false
